@@ -51,7 +51,7 @@ class World:
         try:
             return 'return', self.it.call_function(fi, list(args), dict(kwargs or {}), bound=bound)
         except AnalysisError as ex:
-            if budget is not None and 'interpretation exceeds' in str(ex):
+            if budget is not None and ('interpretation exceeds' in str(ex) or 'inlining depth exceeded' in str(ex)):
                 return 'runaway', 'the reader does not terminate within the step budget (it walks off the data)'
             raise
         except RaiseSignal as r:
